@@ -161,6 +161,7 @@ struct Result {
   uint64_t hash = 0;            // full history hash
   uint64_t ihash = 0;           // hash of (class, op) projection of the schedule
   uint64_t preemptions = 0;     // decisions that switched away from an enabled current fiber
+  uint32_t unreaped_threads = 0;   // threads that ended without ever being joined or detached (their stacks stay mapped in a real process)
   uint32_t file_grew = 0;       // "growing input file" faults that took effect
   uint32_t stalls_fired = 0;    // stall faults that took effect
   uint64_t inregion_points = 0, inregion_preemptions = 0;   // "preempt" variant: decision points offered inside unsynchronised code / those that switched threads
